@@ -371,6 +371,21 @@ func c11Check(c C11Case, rec *evid.Rec) error {
 				if err != nil || string(all) != content {
 					return fmt.Errorf("a second AsLargeBytes reader, used after the first read %d bytes, returns %x; content is %x", n1, all, content)
 				}
+				// a third reader only learns the length (what a subset matcher does); the first, partly consumed
+				// reader then continues where it was
+				r3, err := lb.AsLargeBytes()
+				if err != nil {
+					return err
+				}
+				if size, err := r3.Seek(0, io.SeekEnd); err != nil || size != int64(len(content)) {
+					return fmt.Errorf("Seek(0, SeekEnd) on a third reader = %d, %v; content has %d bytes", size, err, len(content))
+				}
+				if op.A%2 == 0 {
+					cont, err := io.ReadAll(r1)
+					if err != nil || string(cont) != content[n1:] {
+						return fmt.Errorf("the first reader, continued after it had read %d bytes and another reader had sought to the end, returns %x (err %v); the rest of the content is %x", n1, cont, err, content[n1:])
+					}
+				}
 				if _, err := r1.Seek(0, io.SeekEnd); err != nil {
 					return err
 				}
